@@ -257,7 +257,7 @@ func writeFileCrashPoints(r *lib.Run, root string) (int, int) {
 			reset()
 			vos.Reset()
 			vos.Hook = func(n int64, op, path string) error { return nil }
-			if err := fs.WriteFile(bytes.NewReader([]byte(nw)), dest, 0o644); err != nil {
+			if err := fs.WriteFile(bytes.NewReader([]byte(nw)), dest, 0o755); err != nil {
 				lib.Fatal("fs.WriteFile: %s", err)
 			}
 			n := int(vos.Count())
@@ -277,7 +277,7 @@ func writeFileCrashPoints(r *lib.Run, root string) (int, int) {
 						}
 						return nil
 					}
-					fs.WriteFile(bytes.NewReader([]byte(nw)), dest, 0o644)
+					fs.WriteFile(bytes.NewReader([]byte(nw)), dest, 0o755)
 					vos.Hook = nil
 					if tear {
 						vos.TearLast()
@@ -290,6 +290,11 @@ func writeFileCrashPoints(r *lib.Run, root string) (int, int) {
 						ok = old == "" // absent is fine only if there was no old file
 					case err == nil:
 						ok = string(got) == nw || (old != "" && string(got) == old)
+					}
+					// the mode belongs to the content: new bytes are only ever visible with the requested mode
+					if fi, serr := os.Lstat(dest); ok && serr == nil && string(got) == nw && (old == "" || string(got) != old) && fi.Mode().Perm() != 0o755 {
+						r.Violate(fmt.Sprintf("writefile:new-content-with-wrong-mode:freeze@%d:tear=%v", k, tear), map[string]any{"old_len": len(old), "new_len": len(nw), "k": k, "tear": tear},
+							fmt.Sprintf("destination holds the new content with mode %v instead of the requested 0755 (a later build that compares contents keeps it)", fi.Mode().Perm()))
 					}
 					if !ok {
 						r.Violate(fmt.Sprintf("writefile:partial-destination:freeze@%d:tear=%v", k, tear), map[string]any{"old_len": len(old), "new_len": len(nw), "k": k, "tear": tear},
